@@ -35,7 +35,7 @@ HAND = [
     "M: w=Wrap; Wrap: Link; Link: Body-; Body: val=INT | 'x' Wrap;",
     "M: x=A y=B; A: B; B: C; C: /c+/ | INT;",
     # an attribute assigned with '?=' and again with '=' / '+=' in every order and nesting that the compiler accepts
-    "Model: flag?='on' ('+' flag=ID)* (opt?='x' opt=INT)? ('k' k=INT)+;",
+    "Model: flag?='on' ('+' other=ID)* (opt?='x' val=INT)? ('k' k=INT)+ ('z' k=INT)?;",
 ]
 BAD_PARAMS = ["[foo]", "[ws]", "[split]", "[split='']", "[skipws='x']", "[ws=]", "[noskipws, noskipws, ws='a', ws='b']", "[split=' ', ws='\\\\q']"]
 BAD_ESCAPES = [r"'\N{foo}'", r"'\x'", r"'\u12'", r"'\U0011'", r"'\N{BULLET}'", r"'a\\'", '"\\N{nope}x"']
